@@ -9,19 +9,19 @@ package command
 // watchdog: the scan is cancelled only after the engine signalled completion AND a timer of exactly the
 // configured exit delay, armed after that signal, has fired.
 //@ func startScanEngine$2
-//@   props C16 C08 C12 C13 C14 C01 C03 C07 C15 C09 C10 C20
+//@   props C16 C08 C12 C13 C14 C01 C03 C07 C15 C09 C10 C20 C11 C19
 //@   observe time.After, cancel
 //@   entry row delay: [recv done as (_, _) ; call time.After(conf.exitDelay) as (t) ; recv t as (_, _) ; call cancel()] -> exit
 
 // result logging goroutine: LogResults on the derived context and the engine's result channel, then Done
 //@ func startScanEngine$1
-//@   props C16 C08 C12 C13 C14 C01 C03 C07 C15 C09 C10 C20
+//@   props C16 C08 C12 C13 C14 C01 C03 C07 C15 C09 C10 C20 C11 C19
 //@   observe LogResults, Results, (*sync.WaitGroup).Done
 //@   entry row log: [call Results(engine) as (rc) ; call LogResults(logger, ctx, rc) ; call Done(_)] -> exit
 
 // error drain: every error of the stream is logged once; returns only when the stream is closed
 //@ func startScanEngine$3
-//@   props C08 C12 C13 C14 C01 C03 C07 C15 C16 C09 C10 C20
+//@   props C08 C12 C13 C14 C01 C03 C07 C15 C16 C09 C10 C20 C11 C19
 //@   observe Error, (*sync.WaitGroup).Done
 //@   loop 0 row closed: [recv errc as (e, false) ; call Done(_)] -> exit
 //@   loop 0 row report: [recv errc as (e, true) ; call Error(logger, e)] -> continue
@@ -30,7 +30,7 @@ package command
 // done channel and the derived cancel; returns only after Wait (logger returned and error stream closed);
 // the deferred cancel runs after Wait.
 //@ func startScanEngine
-//@   props C16 C08 C12 C13 C14 C01 C03 C07 C15 C09 C10 C20
+//@   props C16 C08 C12 C13 C14 C01 C03 C07 C15 C09 C10 C20 C11 C19
 //@   observe context.WithCancel, Start, (*sync.WaitGroup).Add, (*sync.WaitGroup).Wait, cancel
 //@   entry row scan: [call context.WithCancel(ctx) as (c2, cf) ; call Add(_, 1) ; go startScanEngine$1{logger: bind_lg, ctx: bind_c1, engine: bind_en} ;
 //@                    call Start(engine, c2, bind_rng) as (done, errc) ; go startScanEngine$2{cancel: bind_cf2, done: bind_dn, conf: bind_cfg} ;
@@ -44,7 +44,7 @@ package command
 // conf.Ports[200k : min(200k+200, len)] (same order, 1..200 ranges) and that is otherwise identical, until all
 // ranges are consumed or an engine fails.
 //@ func startPortScanEngine
-//@   props C01 C03 C15 C16 C07 C08 C13 C14 C09 C10 C12 C20
+//@   props C01 C03 C15 C16 C07 C08 C13 C14 C09 C10 C12 C20 C11 C19
 //@   observe startPacketScanEngine
 //@   entry row pairs:  [call startPacketScanEngine(ctx, conf) as (e)] when len(pre(conf.scanRange.Ports)) == 0 && ret == e -> exit
 //@   entry row ranges: [] when len(conf.scanRange.Ports) > 0 -> loop 0
@@ -67,7 +67,7 @@ package command
 // (rateCount, Per(rateWindow)) and nothing else, otherwise straight to the packet source; the engine gets the
 // configured scan method; startScanEngine runs on this configuration's engine config; the source is closed.
 //@ func startPacketScanEngine
-//@   props C03 C15 C01 C16 C07 C08 C13 C14 C09 C10 C12 C20
+//@   props C03 C15 C01 C16 C07 C08 C13 C14 C09 C10 C12 C20 C11 C19
 //@   observe bpfFilter, ratelimit.Per, ratelimit.New
 //@   opaque afpacket.NewPacketSource, (*Source).Close, (*Source).SetBPFFilter, packet.NewRateLimitReadWriter, scan.SetupPacketEngine, startScanEngine
 //@   entry row nosource:  [call afpacket.NewPacketSource(conf.scanRange.Interface.Name, conf.vpnMode) as (ps, e)] when e != nil && ret == e -> exit
@@ -444,11 +444,11 @@ package command
 
 // engine configuration: default exit delay 300 ms, then the options in order; each option sets exactly its field
 //@ func withExitDelay$1
-//@   props C16 C01 C03 C07 C08 C13 C14 C15 C09 C10 C12 C20
+//@   props C16 C01 C03 C07 C08 C13 C14 C15 C09 C10 C12 C20 C11 C19
 //@   modifies c.exitDelay
 //@   ensures c.exitDelay == exitDelay
 //@ func withLogger$1
-//@   props C16 C14 C01 C03 C07 C08 C13 C15 C09 C10 C12 C20
+//@   props C16 C14 C01 C03 C07 C08 C13 C15 C09 C10 C12 C20 C11 C19
 //@   modifies c.logger
 //@   ensures c.logger == logger
 //@ func withRateCount$1
@@ -472,7 +472,7 @@ package command
 //@   modifies c.scanMethod
 //@   ensures c.scanMethod == sm
 //@ func newEngineConfig
-//@   props C16 C01 C03 C07 C08 C13 C14 C15 C09 C10 C12 C20
+//@   props C16 C01 C03 C07 C08 C13 C14 C15 C09 C10 C12 C20 C11 C19
 //@   inline
 //@   observe o
 //@   entry row init:  [] when c.exitDelay == 300000000 -> loop 0
@@ -791,19 +791,19 @@ package command
 // ARP cache source and gateway MAC (C11): an explicit --gwmac wins; otherwise the cache entry of the default
 // gateway of the chosen interface; stdin cannot feed both the cache and the address list
 //@ func (*ipScanCmdOpts).isARPCacheFromStdin
-//@   props C11 C01 C05 C07 C13 C12
+//@   props C11 C01 C05 C07 C13 C12 C02 C17
 //@   ensures ret <==> (len(o.arpCacheFile) == 0 || o.arpCacheFile == "-")
 //@ func (*ipScanCmdOpts).validateARPStdin
-//@   props C11 C01 C05 C07 C13 C12
+//@   props C11 C01 C05 C07 C13 C12 C02 C17
 //@   ensures (ret != nil) <==> ((len(o.arpCacheFile) == 0 || o.arpCacheFile == "-") && o.ipFile == "-")
 //@ func (*ipScanCmdOpts).getGatewayMAC
-//@   props C11 C01 C05 C07 C13 C12
+//@   props C11 C01 C05 C07 C13 C12 C02 C17
 //@   observe ip.GetDefaultGatewayIP, To4, Get
 //@   entry row given:  [] when o.gatewayMAC != nil && ret0 == o.gatewayMAC && ret1 == nil -> exit
 //@   entry row nogw:   [call ip.GetDefaultGatewayIP(iface) as (g, e)] when o.gatewayMAC == nil && e != nil && ret1 == e -> exit
 //@   entry row lookup: [call ip.GetDefaultGatewayIP(iface) as (g, e) ; call To4(g) as (g4) ; call Get(cache, g4) as (m)] when o.gatewayMAC == nil && e == nil && ret0 == m && ret1 == nil -> exit
 //@ func (*ipScanCmdOpts).parseARPCache
-//@   props C11 C01 C05 C07 C13 C12
+//@   props C11 C01 C05 C07 C13 C12 C02 C17
 //@   observe arp.FillCache, Close
 //@   opaque (*ipScanCmdOpts).openARPCache, arp.NewCache
 //@   entry row noopen: [call openARPCache(_) as (r, e)] when e != nil && ret1 == e -> exit
@@ -1023,11 +1023,11 @@ package command
 // option constructors: each returns its own option closure over exactly its argument (verified here, inlined at call sites)
 //@ func withExitDelay
 //@   inline
-//@   props C16 C01 C03 C07 C08 C13 C14 C15 C09 C10 C12 C20
+//@   props C16 C01 C03 C07 C08 C13 C14 C15 C09 C10 C12 C20 C11 C19
 //@   ensures closureof(ret, "withExitDelay$1") && capt(ret, "exitDelay") == exitDelay
 //@ func withLogger
 //@   inline
-//@   props C16 C14 C01 C03 C07 C08 C13 C15 C09 C10 C12 C20
+//@   props C16 C14 C01 C03 C07 C08 C13 C15 C09 C10 C12 C20 C11 C19
 //@   ensures closureof(ret, "withLogger$1") && capt(ret, "logger") == logger
 //@ func withPacketBPFFilter
 //@   inline
